@@ -20,7 +20,9 @@ M2 == {<< <<a, b>>, <<c, d>> >> : a \in B01, b \in B01, c \in B01, d \in B01}
 M2wide == {<< <<a, b>>, <<c, d>> >> : a \in G4, b \in G4, c \in G4, d \in G4}
 Z2 == << <<0, 0>>, <<0, 0>> >>
 Units2 == {Z2, << <<1, 0>>, <<0, 0>> >>, << <<0, 1>>, <<0, 0>> >>, << <<0, 0>>, <<1, 0>> >>, << <<0, 0>>, <<0, 1>> >>}
-G0set == IF Tier = "quick" THEN M2 ELSE M2wide
+Mq == {<< <<1, 1>>, <<0, 1>> >>, << <<0, 1>>, <<1, 0>> >>, << <<1, 0>>, <<1, -1>> >>,
+       << <<0, 1>>, <<0, 0>> >>, << <<2, -1>>, <<1, 1>> >>, << <<0, 0>>, <<1, 1>> >>}
+G0set == IF Tier = "quick" THEN Mq ELSE M2wide
 
 KindsOf == CASE Variant = "b1b0_coeff" -> {"expo"}
              [] Variant \in {"commuted", "b0g0e2"} -> {"expa"}
@@ -37,7 +39,8 @@ Next ==
      \/ /\ x.of = "expo"
         /\ x' \in [kind : {"expo"}, b0 : {x.b0}, b1 : B01, b2 : B01, unit : 0..3]
      \/ /\ x.of = "expa"
-        /\ x' \in [kind : {"expa"}, G0 : {x.G0}, G1 : Units2,
+        /\ x' \in [kind : {"expa"}, G0 : {x.G0},
+                   G1 : (IF Tier = "quick" THEN {Z2, << <<0, 1>>, <<0, 0>> >>, << <<0, 0>>, <<1, 0>> >>} ELSE Units2),
                    G2 : {Z2, << <<0, 1>>, <<0, 0>> >>}, b0 : 0..2, b1 : B01]
 
 Ls == -1..2
@@ -45,16 +48,16 @@ Bs == << QI(x.b0), QI(x.b1), IF x.kind = "expa" THEN Q0 ELSE QI(x.b2) >>
 UnitTower(k) == [j \in 1..4 |-> IF j = k + 1 THEN S1(Q1) ELSE S1(Q0)]
 
 InvReexp == x.kind = "reexp" => ReexpansionKnown(Bs)
-InvExpo == x.kind = "expo" => \A l \in Ls :
-   /\ SeqMEq(GammaVariationTranscribed(UnitTower(x.unit), Bs, 4, QI(l), Variant),
-             C21_GammaPrime(UnitTower(x.unit), Bs, 4, QI(l)))
-   \* lower orders are truncations
-   /\ \A n \in 1..3 : \A j \in 1..n :
-        MEq(GammaVariationTranscribed(UnitTower(x.unit), Bs, n, QI(l), Variant)[j],
-            C21_GammaPrime(UnitTower(x.unit), Bs, 4, QI(l))[j])
+(* the derivation is done once per instance as polynomials in L; the formulas of   *)
+(* the implementation are compared at L = -1..2 (degree <= 3 in L)                 *)
+InvExpo == x.kind = "expo" =>
+  Let1(GammaOfR(UnitTower(x.unit), Bs, 4), LAMBDA G :
+    \A l \in Ls : \A n \in 1..4 : \A j \in 1..n :
+        MEq(GammaVariationTranscribed(UnitTower(x.unit), Bs, n, QI(l), Variant)[j], BRowEval(G, j, QI(l), 1)))
 Gs == << MOfInt(x.G0), MOfInt(x.G1), MOfInt(x.G2) >>
-InvExpa == x.kind = "expa" => \A l \in Ls :
-   /\ SeqMEq(KernelTranscribed(Gs, Bs, 4, QI(l), 4, Variant), C21_Kernel(Gs, Bs, 4, QI(l), 4))
-   /\ \A n \in 1..3 : \A j \in 1..n :
-        MEq(KernelTranscribed(Gs, Bs, n, QI(l), 4, Variant)[j], C21_Kernel(Gs, Bs, 4, QI(l), 4)[j])
+InvExpa == x.kind = "expa" =>
+  Let1(PathOrdered(Gs, Bs, 4), LAMBDA K :
+    \A l \in Ls : \A n \in 1..4 : \A j \in 1..4 :
+        MEq(KernelTranscribed(Gs, Bs, n, QI(l), 4, Variant)[j],
+            IF j <= n THEN BRowEval(K, j - 1, QI(l), 1) ELSE MZero(2)))
 =============================================================================
